@@ -98,7 +98,17 @@ class TDir:
 
 
 def cstr(s):
+    """Gallina term of type str (list of code points). ASCII strings go through the Coq string
+    notation (`zs`, defined in COQ_DEFS: one token instead of a long list literal)."""
+    if s and all(32 <= ord(c) < 127 and c not in '"\\' for c in s):
+        return '(zs "%s")' % s
     return "[" + "; ".join(str(ord(c)) for c in s) + "]"
+
+
+COQ_REQ = ("From Coq Require Import String Ascii ZArith List Bool.\nFrom Verif Require Import C16.Model.\n"
+           "Import ListNotations.\nOpen Scope Z_scope.")
+COQ_DEFS = ("Definition zs (s : string) : str := List.map (fun a => Z.of_N (N_of_ascii a)) (list_ascii_of_string s).\n"
+            "Arguments zs s%string.")
 
 
 def coq_fn(f):
@@ -766,7 +776,7 @@ def run(chk):
     res = chk.proof_stage("C16", allow_axioms=())
     binary = vlib.build_harness("debug")
 
-    n_rand = 260 if chk.tier == "quick" else 4000
+    n_rand = 150 if chk.tier == "quick" else 4000
     cases = fixed_cases()
     for _ in range(n_rand):
         cases.append(gen_case(chk.rng, len(cases)))
@@ -793,16 +803,14 @@ def run(chk):
     t0 = time.time()
     # ---- model inside Coq
     model_ok = vlib.coq_build(["C16/Model.vo"])[0]
-    req = "From Coq Require Import ZArith List Bool.\nFrom Verif Require Import C16.Model.\nImport ListNotations.\nOpen Scope Z_scope."
+    req = COQ_REQ
     models, dmodels = None, None
     if model_ok:
         ty = "option node * opts * list (str * str * bool) * bool"
-        mv = vlib.coq_eval(req, ty, "fun c => let '(t, o, tb, d) := c in run_case t o tb d", [coq_case(c) for c in cases], shard=40, tag="c16")
-        models = [model_view(m) for m in mv]
-        dm = vlib.coq_eval(req, "option node", "render_discovery",
-                           ["None" if resolve(c["root"], c["path"]) is None else "Some (%s)" % coq_node(resolve(c["root"], c["path"])) for c in cases],
-                           shard=40, tag="c16d")
-        dmodels = dm
+        mv = vlib.coq_eval(req, ty, "fun c => let '(t, o, tb, d) := c in (run_case t o tb d, render_discovery t)",
+                           [coq_case(c) for c in cases], shard=12, tag="c16", extra_defs=COQ_DEFS)
+        models = [model_view(m[:5]) for m in mv]       # Coq prints left-nested pairs flat: 5 + 1 components
+        dmodels = [m[5] for m in mv]
     else:
         res["tie_ok"] = False
         res["broken"].append({"what": "model", "message": "C16/Model.v does not build"})
@@ -914,7 +922,7 @@ def run(chk):
     if model_ok and len(runs_body_seen) == 1:
         rb = True in runs_body_seen
         ty = "node * bool * bool * bool * list str"
-        tm = vlib.coq_eval(req, ty, TRUTH_RUN, [coq_truth_term(f, t, e, rb) for (f, t, e, _) in mterms], tag="c16t")
+        tm = vlib.coq_eval(req, ty, TRUTH_RUN, [coq_truth_term(f, t, e, rb) for (f, t, e, _) in mterms], tag="c16t", extra_defs=COQ_DEFS)
         for (f, truth, extra, _), r, m in zip(mterms, mexpect, tm):
             mres = [(pystr(n), code) for (n, code) in m[0]]
             ires = [(l[1], l[2]) for l in r["lines"]]
